@@ -3,6 +3,7 @@ package main
 import (
 	"bytes"
 	"fmt"
+	"github.com/refraction-networking/conjure/pkg/zzverif/vtime"
 	"strconv"
 	"strings"
 	"time"
@@ -33,7 +34,10 @@ func enumHBLoss(fam string, parts []string) []*instance {
 	}{{"T/2", T / 2}, {"T/3", T / 3}, {"T-1s", T - time.Second}, {"T", T}}
 	shifts := []time.Duration{0, time.Second}
 	// data offsets relative to the last heartbeat (in units of T/4); "-" none
-	datasets := []string{"-", "1", "3", "1,3", "3,5", "1,5,7", "4"}
+	// "flood": 70 data messages right after the last heartbeat and a reader that takes one message per half interval
+	// (the receive queue is full, the receive loop waits for the reader): a peer that sends data but no heartbeats is
+	// still a peer whose heartbeats stopped
+	datasets := []string{"-", "1", "3", "1,3", "3,5", "1,5,7", "4", "flood"}
 	var out []*instance
 	for k := 0; k <= maxK; k++ {
 		for _, per := range periods {
@@ -65,7 +69,12 @@ func hbInstance(name string, k int, per, shift time.Duration, ds string, T time.
 		}
 		var must, may []byte
 		next := byte('a')
-		if ds != "-" {
+		flood := ds == "flood"
+		if flood {
+			for i := 0; i < 70; i++ {
+				evs = append(evs, ev{last + time.Millisecond + time.Duration(i)*time.Microsecond, []byte{'a' + byte(i%26), 'A' + byte(i%26)}})
+			}
+		} else if ds != "-" {
 			for _, f := range strings.Split(ds, ",") {
 				q, _ := strconv.Atoi(f)
 				at := last + time.Duration(q)*T/4
@@ -110,7 +119,9 @@ func hbInstance(name string, k int, per, shift time.Duration, ds string, T time.
 			script = append(script, vmsg.In{At: e.at, Data: e.data})
 			if !bytes.Equal(e.data, hbPayload) {
 				may = append(may, e.data...)
-				if e.at < earliest {
+				if e.at < earliest && !flood {
+					// (flood: what the slow reader has not taken off the queue, and what the receive loop has not taken
+					// off the stream, when the connection closes is not owed to it)
 					must = append(must, e.data...)
 				}
 			}
@@ -123,7 +134,14 @@ func hbInstance(name string, k int, per, shift time.Duration, ds string, T time.
 		readerDone := false
 		body := func() {
 			c, _ := dtls.VerifServerStack(st, under, 0, hbPayload, maxMsg)
-			for i := 0; i < 64; i++ {
+			rounds := 64
+			if flood {
+				rounds = 120
+			}
+			for i := 0; i < rounds; i++ {
+				if flood {
+					vtime.Sleep(T / 2)
+				}
 				buf := make([]byte, 3)
 				n, err := c.Read(buf)
 				got = append(got, buf[:n]...)
@@ -151,7 +169,7 @@ func hbInstance(name string, k int, per, shift time.Duration, ds string, T time.
 			if st.ClosedAt > last+2*T {
 				return &vsched.Violation{Key: "closed-too-late", What: fmt.Sprintf("last heartbeat at %v, interval %v, stream closed at %v", last, T, st.ClosedAt)}
 			}
-			if errAt > last+2*T {
+			if errAt > last+2*T && !flood {
 				return &vsched.Violation{Key: "closed-too-late", What: fmt.Sprintf("last heartbeat at %v, interval %v, reader unblocked at %v", last, T, errAt)}
 			}
 			if bytes.Contains(got, hbPayload) {
@@ -168,9 +186,25 @@ func hbInstance(name string, k int, per, shift time.Duration, ds string, T time.
 		outcome := func(x *vsched.Exec) string {
 			return fmt.Sprintf("%s closedAt=%v got=%d/%d/%d", x.Verdict, st.ClosedAt, len(must), len(got), len(may))
 		}
-		return &vsched.Scenario{Body: body, Check: check, Outcome: outcome}
+		sc := &vsched.Scenario{Body: body, Check: check, Outcome: outcome}
+		if ds == "flood" {
+			// hundreds of blocking points per execution: every choice that is not the default one counts as a delay
+			sc.Setup = func(x *vsched.Exec) { x.DelayBounded = true }
+		}
+		return sc
 	}
-	return &instance{name: name, mk: mk, cfg: vsched.Config{PreemptBound: pb, MaxPoints: 4000}}
+	mp := 4000
+	if ds == "flood" {
+		mp, pb = 60000, 0 // (long executions: the default schedule only, delay bound 0)
+	}
+	cfg := vsched.Config{PreemptBound: pb, MaxPoints: mp}
+	if ds == "flood" {
+		// some 400 points per execution with a free choice at most of them: the tree is not exhausted; the first 48
+		// executions in depth-first order (the default schedule and its nearest deviations) are run and the cap is
+		// reported - every other instance of the family is explored completely
+		cfg.MaxExec = 48
+	}
+	return &instance{name: name, mk: mk, cfg: cfg}
 }
 
 // flow family: flow:<stack>:<alphabet>:<depth>:p<bound>   (alphabet over M=limit/2, h=limit/4, q=3/8 limit, 1, 0, X=limit/2+1)
